@@ -81,7 +81,7 @@ func NewTokenLimiter(rate, burst int, store *redis.Redis, key string) *TokenLimi
 		rescueLock:     sync.Mutex{},
 		redisAlive:     1,
 		monitorStarted: false,
-		rescueLimiter:  xrate.NewLimiter(xrate.Every(time.Second/time.Duration(rate)), burst),
+		rescueLimiter:  xrate.NewLimiter(xrate.Limit(rate), burst),
 	}
 }
 
